@@ -276,12 +276,40 @@ func (c *Check) closeOnce(rule string) {
 				}
 			}
 		})
+		// the test may also be a call of a poll predicate (`func closed(ch) bool
+		// { select { case <-ch: return true; default: return false } }`) on the
+		// same channel: its result at that call site is what the path knows
+		type pollCall struct {
+			call *ssa.Call
+		}
+		var polls []pollCall
+		ownInstrs(root, func(in ssa.Instruction) {
+			cl, isCall := in.(*ssa.Call)
+			if !isCall {
+				return
+			}
+			h := cl.Call.StaticCallee()
+			k := pollPredicateParam(p, h)
+			if k < 0 || k >= len(cl.Call.Args) {
+				return
+			}
+			if sameCreation(cf, cl.Call.Args[k], v) {
+				polls = append(polls, pollCall{cl})
+			}
+		})
 		sts := a.At[to]
-		if len(cands) == 0 || len(sts) == 0 {
+		if (len(cands) == 0 && len(polls) == 0) || len(sts) == 0 {
 			return false
 		}
 		for _, st := range sts {
 			okSt := false
+			for _, pc := range polls {
+				if res, bound := st.env[pc.call]; bound {
+					if cv, isC := st.rangeOf(res).IsConst(); isC && cv == 0 {
+						okSt = true
+					}
+				}
+			}
 			for _, sc := range cands {
 				l, bound := st.env[sc.sel]
 				if !bound {
@@ -513,4 +541,58 @@ func topLevelOf(fn *ssa.Function) *ssa.Function {
 		fn = fn.Parent()
 	}
 	return fn
+}
+
+// pollPredicateParam: h is a function that polls one of its channel
+// parameters without blocking and reports whether a receive succeeded
+// (true exactly when the receive case was taken); the parameter's index, or -1.
+func pollPredicateParam(p *Prog, h *ssa.Function) int {
+	if h == nil || !p.IsLocal(h) || len(h.Blocks) == 0 || len(h.Blocks) > 8 {
+		return -1
+	}
+	if h.Signature.Results().Len() != 1 || !isBoolType(h.Signature.Results().At(0).Type()) {
+		return -1
+	}
+	var sel *ssa.Select
+	n := 0
+	ownInstrs(h, func(in ssa.Instruction) {
+		switch x := in.(type) {
+		case *ssa.Select:
+			sel = x
+			n++
+		case *ssa.Call, *ssa.Go, *ssa.Defer, *ssa.Send, *ssa.Store, *ssa.MapUpdate:
+			n += 10
+		}
+	})
+	if n != 1 || sel == nil || sel.Blocking || len(sel.States) != 1 || sel.States[0].Send != nil {
+		return -1
+	}
+	pr, ok := sel.States[0].Chan.(*ssa.Parameter)
+	if !ok {
+		return -1
+	}
+	k := -1
+	for i, q := range h.Params {
+		if q == pr {
+			k = i
+		}
+	}
+	a := NewAnalysis(p, h)
+	a.Run()
+	if len(a.Returns) == 0 || len(a.Undecided) > 0 {
+		return -1
+	}
+	for _, r := range a.Returns {
+		l, bound := r.State.env[sel]
+		if !bound {
+			return -1
+		}
+		idx := r.State.rangeOf(mk("ex", types.Typ[types.Int], "", 0, l, mkConst(0, intT)))
+		res, isC := r.State.rangeOf(r.Results[0]).IsConst()
+		iv, isI := idx.IsConst()
+		if !isC || !isI || (iv == 0) != (res == 1) {
+			return -1
+		}
+	}
+	return k
 }
